@@ -110,7 +110,7 @@ def check(ctx, need):
         muts = [m for m in prims.mutations(v) if show(m.path) == 'outbound_data' and m.kind != 'access']
         kinds = sorted(set(short(m.callee) if m.callee else '=' for m in muts))
         ctx.ob(kinds == ['MqttClientImpl::handle_service', 'Vec::clear'], '%s: outbound buffer written only by handle_service and clear (%s)' % (nm, kinds), 'cursor|%s|writers' % nm, loc=v.loc())
-        caps = [c for c in v.calls('Vec::with_capacity') if 'u8' in c.term.get('fng', '') or True]
+        caps = [c for c in v.calls('Vec::with_capacity')]
         ctx.ob(any((prims.const_val(c.arg(0)) or 0) >= 4 for c in caps), '%s: outbound buffer capacity is a constant >= 4 (encoder precondition)' % nm, 'cursor|%s|capacity' % nm, loc=v.loc())
 
     # ------------------------------------------------------------ R-C13-2
